@@ -14,11 +14,6 @@ theorem explicit_types_known : explicitTypes.all (fun p => p.1.isSome) = true :=
 
 /-! ### occurrences: counting children, merging samples -/
 
-theorem fold_nodup (xs : List Attr) : ∀ acc, NodupKeys acc → NodupKeys (xs.foldl addAttribute acc) := by
-  induction xs with
-  | nil => intro acc h; simpa using h
-  | cons x rest ih => intro acc h; simpa using ih _ (addAttribute_nodup x h)
-
 /-- **merged_bounds_sound.** Take any set of samples (occurrences of one element; each is the
 list of freshly built child attrs in document order, `min ≤ 1`, `max = 1`), run every one
 through `add_attribute` and merge the results with `reduce_attributes`.  Then the merge does
@@ -105,28 +100,6 @@ theorem xml_samples_admitted (e : SEnv) (docs : List El) :
   obtain ⟨d, _, hcd⟩ := hc
   exact mapElement_nodup e d c hcd
 
-theorem mapM_option_mem {α β : Type} (f : α → Option β) : ∀ (xs : List α) (rs : List β),
-    xs.mapM f = some rs → ∀ r ∈ rs, ∃ x ∈ xs, f x = some r := by
-  intro xs
-  induction xs with
-  | nil => intro rs h r hr; simp at h; subst h; simp at hr
-  | cons x xs ih =>
-    intro rs h r hr
-    simp only [List.mapM_cons] at h
-    cases hx : f x with
-    | none => simp [hx] at h
-    | some b =>
-      cases hxs : xs.mapM f with
-      | none => simp [hx, hxs] at h
-      | some bs =>
-        simp [hx, hxs] at h
-        subst h
-        simp only [List.mem_cons] at hr
-        rcases hr with rfl | hr
-        · exact ⟨x, by simp, hx⟩
-        · obtain ⟨y, hy, hfy⟩ := ih bs hxs r hr
-          exact ⟨y, by simp [hy], hfy⟩
-
 /-- **json_samples_admitted.** The same for JSON documents that `DictMapper.map` gets through. -/
 theorem json_samples_admitted (e : SEnv) (docs : List (List (Str × JVal))) (name : Str) (css : List (List Cls))
     (h : docs.mapM (fun d => mapDict e d name) = some css) : allAdmitted css.flatten = some true := by
@@ -136,6 +109,56 @@ theorem json_samples_admitted (e : SEnv) (docs : List (List (Str × JVal))) (nam
   obtain ⟨cs, hcs, hccs⟩ := hc
   obtain ⟨d, _, hd⟩ := mapM_option_mem _ docs css h cs hcs
   exact mapDict_nodup e d name cs hd c hccs
+
+/-- **filter_types_spec.** The types of a merged attr are never empty, carry no `xs:error`, and a
+placeholder (`anyType` / `anySimpleType`, what an empty or null value is inferred as) survives only
+when it is alone. -/
+theorem filter_types_spec (types : List AType) :
+    filterTypes types ≠ [] ∧
+    (∀ t ∈ filterTypes types, t.native = true → t.qname = Tables.dtError → False) ∧
+    (1 < (filterTypes types).length → ∀ t ∈ filterTypes types, t.native = true →
+      t.qname ≠ Tables.dtAnyType ∧ t.qname ≠ Tables.dtAnySimpleType) := by
+  have hd : Tables.dtString ≠ Tables.dtError := by decide
+  simp only [filterTypes]
+  generalize hts1 : (uniqueByQName types).filter (fun t => !(t.native && t.qname = Tables.dtError)) = ts1
+  have h1 : ∀ t ∈ ts1, t.native = true → t.qname = Tables.dtError → False := by
+    intro t ht hn hq
+    rw [← hts1] at ht
+    simp only [List.mem_filter] at ht
+    simp [hn, hq] at ht
+  by_cases hlen : ts1.length > 1
+  · simp only [hlen, if_true]
+    generalize hts2 : ts1.filter (fun t => !(t.native && (t.qname = Tables.dtAnyType || t.qname = Tables.dtAnySimpleType))) = ts2
+    have h2 : ∀ t ∈ ts2, t ∈ ts1 ∧ (t.native = true → t.qname ≠ Tables.dtAnyType ∧ t.qname ≠ Tables.dtAnySimpleType) := by
+      intro t ht
+      rw [← hts2] at ht
+      simp only [List.mem_filter] at ht
+      refine ⟨ht.1, fun hn => ?_⟩
+      have := ht.2
+      simp only [hn, Bool.true_and, Bool.not_eq_true', Bool.or_eq_false_iff, decide_eq_false_iff_not] at this
+      exact this
+    cases hem : ts2.isEmpty with
+    | true =>
+      simp only [if_true]
+      refine ⟨by simp, ?_, ?_⟩
+      · intro t ht _ hq; simp only [List.mem_singleton] at ht; subst ht; exact hd hq
+      · intro hl; simp at hl
+    | false =>
+      simp only [Bool.false_eq_true, if_false]
+      refine ⟨by intro h; simp [h] at hem, ?_, ?_⟩
+      · intro t ht hn hq; exact h1 t (h2 t ht).1 hn hq
+      · intro _ t ht hn; exact (h2 t ht).2 hn
+  · simp only [hlen, if_false]
+    cases hem : ts1.isEmpty with
+    | true =>
+      simp only [if_true]
+      refine ⟨by simp, ?_, ?_⟩
+      · intro t ht _ hq; simp only [List.mem_singleton] at ht; subst ht; exact hd hq
+      · intro hl; simp at hl
+    | false =>
+      simp only [Bool.false_eq_true, if_false]
+      refine ⟨by intro h; simp [h] at hem, fun t ht hn hq => h1 t ht hn hq, ?_⟩
+      intro hl; omega
 
 /-! ### the interleaving marker across occurrences (finding C13-sequence-from-first-occurrence) -/
 
